@@ -127,6 +127,26 @@ func main() {
 				fmt.Println("real code :", l)
 			}
 		}
+	case "coverage":
+		w, err := loadWorld("/repo", defaultSpecs("/repo", "/verif"))
+		if err != nil {
+			fmt.Fprintln(os.Stderr, err)
+			os.Exit(2)
+		}
+		var with, trusted, without []string
+		for _, fn := range w.packageFuncs() {
+			k := fnKey(fn)
+			fc := w.db.Funcs[k]
+			switch {
+			case fc == nil:
+				without = append(without, k)
+			case fc.Trusted:
+				trusted = append(trusted, k)
+			default:
+				with = append(with, k)
+			}
+		}
+		fmt.Printf("under contract (%d): %s\n\ntrusted contract (%d): %s\n\nno contract (%d): %s\n", len(with), strings.Join(with, ", "), len(trusted), strings.Join(trusted, ", "), len(without), strings.Join(without, ", "))
 	case "owners":
 		if err := loadSpecs("/verif/spec"); err != nil {
 			fmt.Fprintln(os.Stderr, err)
@@ -275,6 +295,9 @@ func cmdVerify(args []string) {
 		}
 	}
 	if bad > 0 {
+		if !*keep {
+			cleanupDir(dir) // os.Exit skips the deferred cleanup
+		}
 		os.Exit(1)
 	}
 }
